@@ -17,7 +17,7 @@
    EOF id never arrive"; C20_beyond_eof_refuted shows it is needed, and
    C20_recv_done_general needs nothing else (arbitrary data). *)
 From Coq Require Import NArith ZArith List Bool Arith.
-From HV Require Import Base.Bytes Asset.Xfer Asset.XferProofs Asset.Schema Asset.SchemaProofs Asset.Digits Asset.Record Asset.RecordProofs.
+From HV Require Import Base.Bytes Asset.Xfer Asset.XferProofs Asset.Schema Asset.SchemaProofs Asset.Digits Asset.Record Asset.RecordProofs Asset.Llsd Asset.LlsdProofs.
 Import ListNotations.
 Local Open Scope nat_scope.
 
@@ -325,3 +325,35 @@ Theorem C20_record_dom_refuted :
   option_map fst (from_lines ex_schema (skipn 1 (to_lines [105]%N ex_schema r))) <> Some r.
 Proof. vm_compute. split; [reflexivity | discriminate]. Qed.
 Print Assumptions C20_record_dom_refuted.
+
+(* ====================================================================================== *)
+(* (3) the LLSD flavours of the schema records (Asset/Llsd.v): SchemaBase.to_llsd / from_llsd with the key
+   renaming of the flavour (generated key tables, gen/C20_llsd.v) and the per-kind value conversions
+   (flags as 4 big-endian bytes in the legacy flavour, enums by lookup name in legacy / by value in AIS).
+   The AIS overrides of InventoryCategory / InventoryItem (type dropped, agent_id, links) are NOT modelled. *)
+
+Theorem C20_llsd_value : forall fl k v, dom_l fl k v = true -> back fl k (conv fl k v) = Some v.
+Proof. exact back_conv. Qed.
+Print Assumptions C20_llsd_value.
+
+(* per-node dict round-trip, both flavours, any key table with distinct keys; [extra] = entries under keys the
+   class does not know (ignored by the reader) *)
+Theorem C20_llsd_roundtrip : forall fl S r extra, wf_keys S = true -> dom_llsd fl S r = true ->
+  Forall (fun kv => find_field S (fst kv) = None) extra ->
+  from_llsd fl S (to_llsd fl S r ++ extra) = Some r.
+Proof. exact llsd_roundtrip. Qed.
+Print Assumptions C20_llsd_roundtrip.
+
+Example C20_ex_llsd :
+  let S := [ mkF [105; 100]%N (FP KUUID) None false false;
+             mkF [102]%N (FP KFlag) (Some None) false false;
+             mkF [116]%N (FP (KEnum ex_enum_to ex_enum_from)) (Some None) false false;
+             mkF [112]%N (FB [112]%N [mkPF [109]%N KHex None false false]) (Some None) false false ] in
+  let r := [Some (P (VN 7)); Some (P (VN 2147483648)); Some (P (VZ 1)); Some (R [Some (VN 9)])] in
+  wf_keys S = true /\ dom_llsd Legacy S r = true /\ dom_llsd Ais S r = true /\
+  to_llsd Legacy S r = [([105; 100]%N, LP (LU 7)); ([102]%N, LP (LB [128; 0; 0; 0]%N));
+                        ([116]%N, LP (LS [111; 114; 105; 103]%N)); ([112]%N, LM [([109]%N, LI 9)])] /\
+  to_llsd Ais S r = [([105; 100]%N, LP (LU 7)); ([102]%N, LP (LI 2147483648));
+                     ([116]%N, LP (LI 1)); ([112]%N, LM [([109]%N, LI 9)])] /\
+  from_llsd Ais S (to_llsd Ais S r ++ [([122]%N, LP (LI 5))]) = Some r.
+Proof. vm_compute. repeat split; reflexivity. Qed.
